@@ -156,3 +156,24 @@ static bool make_touch(Rng& r, Problem& P) {
   P.sys = new System(fac);
   return true;
 }
+
+// under-constrained, two non-parameter variables coupled by a product: x0*x1 - a*x2 = 0, x0 - b*x1 = 0 (x2 is the natural parameter);
+// for x>0 exactly one solution per parameter value, several of them known exactly
+static bool make_param(Rng& r, Problem& P) {
+  int n = 3; P.n = n; P.m = 2; P.k = 0;
+  static const double AS[] = {1, 0.5, 2, 4}, BS[] = {1, 2, 0.5}, TS[] = {1, 1.5, 2, 3, 0.75};
+  double a = AS[r.below(4)], b = BS[r.below(3)];
+  SystemFactory fac;
+  Array<const ExprSymbol> x(n); for (int i = 0; i < n; i++) x.set_ref(i, ExprSymbol::new_(("x" + to_string(i)).c_str(), Dim::scalar()));
+  P.planted.clear(); double pmin = 1e9, pmax = -1e9, xmax = 0;
+  for (int k = 0; k < 5; k++) { double t = TS[k]; Vector q(3); q[1] = t; q[0] = b * t; q[2] = b * t * t / a; P.planted.push_back(q); pmin = std::min(pmin, q[2]); pmax = std::max(pmax, q[2]); xmax = std::max(xmax, std::max(q[0], q[1])); }
+  IntervalVector box(n); box[0] = Interval(0.25, xmax + r.range(1, 8) / 4.0); box[1] = Interval(0.25, xmax + r.range(1, 8) / 4.0);
+  box[2] = r.coin() ? Interval(pmin, pmax) : Interval(pmin / 2, pmax * 1.5);
+  fac.add_var(x, box);
+  const ExprNode& e1 = r.coin() ? (x[0] * x[1] - a * x[2]) : (a * x[2] - x[1] * x[0]);
+  const ExprNode& e2 = x[0] - b * x[1];
+  P.dags = dump_expr(e1, x) + "|" + dump_expr(e2, x); P.specs = "eq|eq";
+  fac.add_ctr(ExprCtr(e1, EQ)); fac.add_ctr(ExprCtr(e2, EQ));
+  P.sys = new System(fac);
+  return true;
+}
